@@ -24,31 +24,32 @@ type TableSpec struct {
 }
 
 type CrashCfg struct {
-	Frames     int         `json:"frames"`
-	Tables     []TableSpec `json:"tables"`
-	InitRows   int         `json:"init_rows"`
-	NOps       int         `json:"n_ops"`
-	Slots      int         `json:"slots"`
-	MapPermute bool        `json:"map_permute"`
-	PAbort     float64     `json:"p_abort"`
-	PCheckpt   float64     `json:"p_checkpoint"`
-	PAuto      float64     `json:"p_auto"`
-	Torn       bool        `json:"torn"`      // torn variants of the last write
-	TornPages  bool        `json:"torn_pages"`
-	Nested     int         `json:"nested"`    // depth of crash-inside-recovery exploration
-	MaxImages  int         `json:"max_images"`
-	PostWork   bool        `json:"post_work"`
-	BigTxn     bool        `json:"big_txn"`
-	CleanRestartInSetup bool `json:"clean_restart_in_setup"`
+	Frames              int         `json:"frames"`
+	Tables              []TableSpec `json:"tables"`
+	InitRows            int         `json:"init_rows"`
+	NOps                int         `json:"n_ops"`
+	Slots               int         `json:"slots"`
+	MapPermute          bool        `json:"map_permute"`
+	PAbort              float64     `json:"p_abort"`
+	PCheckpt            float64     `json:"p_checkpoint"`
+	PAuto               float64     `json:"p_auto"`
+	Torn                bool        `json:"torn"` // torn variants of the last write
+	TornPages           bool        `json:"torn_pages"`
+	Nested              int         `json:"nested"` // depth of crash-inside-recovery exploration
+	MaxImages           int         `json:"max_images"`
+	PostWork            bool        `json:"post_work"`
+	BigTxn              bool        `json:"big_txn"`
+	Pressure            bool        `json:"pressure"`
+	CleanRestartInSetup bool        `json:"clean_restart_in_setup"`
 }
 
 type rng struct{ p simrt.PRNG }
 
-func newRng(seed uint64) *rng          { return &rng{simrt.NewPRNG(seed)} }
-func (r *rng) Intn(n int) int          { return r.p.Intn(n) }
-func (r *rng) Float() float64          { return r.p.Float64() }
-func (r *rng) Chance(p float64) bool   { return r.p.Float64() < p }
-func (r *rng) Pick(xs []int) int       { return xs[r.p.Intn(len(xs))] }
+func newRng(seed uint64) *rng        { return &rng{simrt.NewPRNG(seed)} }
+func (r *rng) Intn(n int) int        { return r.p.Intn(n) }
+func (r *rng) Float() float64        { return r.p.Float64() }
+func (r *rng) Chance(p float64) bool { return r.p.Float64() < p }
+func (r *rng) Pick(xs []int) int     { return xs[r.p.Intn(len(xs))] }
 func (r *rng) permN(n int) []int {
 	p := make([]int, n)
 	for i := range p {
@@ -110,6 +111,22 @@ func genCrashCfg(r *rng, tier string) CrashCfg {
 	c.PostWork = r.Chance(0.5)
 	c.MaxImages = 400
 	c.CleanRestartInSetup = r.Chance(0.25)
+	if r.Chance(0.2) {
+		// eviction pressure: one table whose heap is larger than the frames that are not pinned for
+		// good, minimum pool, long transactions of scan-path statements: dirty pages of the open
+		// transaction are evicted in the middle of statements (steal)
+		c.Pressure = true
+		c.Tables = c.Tables[:1]
+		c.Tables[0].Cols = []Col{{"k", TInt}, {"v", TInt}, {"s", TVarchar}}
+		c.Tables[0].Wide = 200
+		c.Frames = 0
+		c.InitRows = 120 + r.Intn(100)
+		c.Slots = 1
+		c.PAuto = 0
+		c.NOps = 12 + r.Intn(20)
+		c.CleanRestartInSetup = false
+		c.MaxImages = 80
+	}
 	return c
 }
 
@@ -140,6 +157,9 @@ func genOp(r *rng, c *CrashCfg, e *Exec, kg *keyGen) Op {
 	pEnd := 0.25
 	if n == 0 {
 		pEnd = 0.08
+	}
+	if c.Pressure {
+		pEnd = 0.1
 	}
 	if r.Chance(pEnd) {
 		if r.Chance(c.PAbort) {
@@ -208,6 +228,9 @@ func genStmt(r *rng, c *CrashCfg, e *Exec, mt *MTxn, kg *keyGen) *Stmt {
 	}
 	keyPred := func() *Pred {
 		k := ks[r.Intn(len(ks))]
+		if c.Pressure && r.Chance(0.7) {
+			return &Pred{Logic: "OR", L: &Pred{Col: "k", Op: "=", Val: k}, R: &Pred{Col: "k", Op: "=", Val: ks[r.Intn(len(ks))]}}
+		}
 		switch r.Intn(6) {
 		case 0: // small range
 			return &Pred{Logic: "AND", L: &Pred{Col: "k", Op: ">=", Val: k}, R: &Pred{Col: "k", Op: "<=", Val: k + int32(r.Intn(3))}}
@@ -280,9 +303,9 @@ func applyEvent(im *Image, ev *disk.SimEvent) {
 
 // Tear describes a torn final write.
 type Tear struct {
-	Kind    string `json:"kind"`              // "log" | "page"
-	Keep    int    `json:"keep"`              // log: bytes of the final WriteLog that reached the file; page: sectors
-	Note    string `json:"note,omitempty"`
+	Kind string `json:"kind"` // "log" | "page"
+	Keep int    `json:"keep"` // log: bytes of the final WriteLog that reached the file; page: sectors
+	Note string `json:"note,omitempty"`
 }
 
 func applyTorn(im *Image, ev *disk.SimEvent, t Tear) {
@@ -376,23 +399,23 @@ func phaseAt(evs []disk.SimEvent, pos int) string {
 // ---------------------------------------------------------------- violations
 
 type Fault struct {
-	Kind  string `json:"kind"` // crash | torn_log | torn_page | nested_crash
-	After int    `json:"after"` // number of I/O events performed before the crash (index into the I/O event list)
-	Tear  *Tear  `json:"tear,omitempty"`
-	Depth int    `json:"depth,omitempty"`
-	Phase string `json:"phase,omitempty"`
-	GCDone    bool `json:"gc_done,omitempty"`    // nested: the recovery run had already truncated the log
-	LoserData bool `json:"loser_data,omitempty"` // nested: the first crash image had a loser with data records (undo has work)
+	Kind      string `json:"kind"`  // crash | torn_log | torn_page | nested_crash
+	After     int    `json:"after"` // number of I/O events performed before the crash (index into the I/O event list)
+	Tear      *Tear  `json:"tear,omitempty"`
+	Depth     int    `json:"depth,omitempty"`
+	Phase     string `json:"phase,omitempty"`
+	GCDone    bool   `json:"gc_done,omitempty"`    // nested: the recovery run had already truncated the log
+	LoserData bool   `json:"loser_data,omitempty"` // nested: the first crash image had a loser with data records (undo has work)
 }
 
 type Violation struct {
-	Property string            `json:"property"`
-	Class    string            `json:"class"`
-	Detail   string            `json:"detail"`
-	Faults   []Fault           `json:"faults,omitempty"`
-	Site     string            `json:"site,omitempty"` // panic site
-	Features map[string]bool   `json:"features,omitempty"`
-	Finding  string            `json:"finding,omitempty"` // key of the known finding this was attributed to
+	Property string          `json:"property"`
+	Class    string          `json:"class"`
+	Detail   string          `json:"detail"`
+	Faults   []Fault         `json:"faults,omitempty"`
+	Site     string          `json:"site,omitempty"` // panic site
+	Features map[string]bool `json:"features,omitempty"`
+	Finding  string          `json:"finding,omitempty"` // key of the known finding this was attributed to
 }
 
 func (v Violation) Key() string { return v.Property + "/" + v.Class + "/" + v.Site }
@@ -400,25 +423,25 @@ func (v Violation) Key() string { return v.Property + "/" + v.Class + "/" + v.Si
 // ---------------------------------------------------------------- one crashsim run
 
 type CrashRun struct {
-	Seed   uint64
-	Cfg    CrashCfg
-	Ops    []Op
-	Dir    string
-	Events []disk.SimEvent
-	SetupEnd int // trace position where the setup phase ended
-	Snaps  []Snapshot
-	SetupCommits int
-	Exec   *Exec
-	FinalImage Image
-	Viol   []Violation
-	Stats  map[string]int
-	Tables []string
-	Features map[string]bool
+	Seed             uint64
+	Cfg              CrashCfg
+	Ops              []Op
+	Dir              string
+	Events           []disk.SimEvent
+	SetupEnd         int // trace position where the setup phase ended
+	Snaps            []Snapshot
+	SetupCommits     int
+	Exec             *Exec
+	FinalImage       Image
+	Viol             []Violation
+	Stats            map[string]int
+	Tables           []string
+	Features         map[string]bool
 	LogRecTypesByTxn map[int32][]int32
-	HeapPages map[int32]bool
-	PreCrashDiv []Divergence
-	Infeasible string
-	EndPins map[int32]int32
+	HeapPages        map[int32]bool
+	PreCrashDiv      []Divergence
+	Infeasible       string
+	EndPins          map[int32]int32
 }
 
 func (cr *CrashRun) stat(k string, n int) {
@@ -576,6 +599,7 @@ type RecoverOutcome struct {
 // recoverImage starts the real engine on the image and reads every table back.
 // The recovery run is recorded (for nested crashes). leaveOpen: caller shuts down.
 func recoverImage(dir string, im Image, frames int, tables []string, record bool) (s *SUT, out RecoverOutcome) {
+	progressTick()
 	path := dir + "/r"
 	removeDBFiles(path)
 	if err := writeImage(path, im); err != nil {
